@@ -438,7 +438,8 @@ def gen_pre(rng, n, malformed=False):
                 zroot = depth + rng.choice([0.02, 0.7])
             else:
                 zroot = round(rng.uniform(min(depth, 0.25), depth), 2); zmin = 0.1
-                k = int(np.argwhere(p.dzsum >= round(max(zroot, zmin), 2)).flatten()[0])
+                hit = np.argwhere(p.dzsum >= round(max(zroot, zmin), 2)).flatten()
+                k = int(hit[0]) if len(hit) else len(p.dz)
                 th = th[: max(0, k - 1)]
         ic = types.SimpleNamespace(z_root=float(zroot), dap=dap, th=th.copy())
         crop = types.SimpleNamespace(Zmin=zmin)
